@@ -31,10 +31,12 @@ class SARWrapper(Wrapper):
         )
 
     def get_obs(self, agent_id, **kwargs):
-        return self.wrap_observation(self.sim.agents[agent_id], self.sim.get_obs(agent_id))
+        return self.wrap_observation(
+            self.sim.agents[agent_id], self.sim.get_obs(agent_id, **kwargs)
+        )
 
     def get_reward(self, agent_id, **kwargs):
-        return self.wrap_reward(self.sim.get_reward(agent_id))
+        return self.wrap_reward(self.sim.get_reward(agent_id, **kwargs))
 
     # Default wrapping and unwrapping behavior. Override these in your custom wrapper.
     # Developer note: we have to have separate wrappers for each because we don't
